@@ -1324,6 +1324,23 @@ func main() {
 	b.WriteString("def poolCollectShape : List String := " + leanStrList(pf.Collect) + "\n\n")
 
 	// json keys
+	for _, fn := range []struct{ name, fun string; file *ast.File }{{"ruleReaderCi", "ParseQuery", ci}, {"ruleCommentLine", "ParseCommentLine", ci}, {"ruleReaderFile", "ExtractQueryFromFile", cmdq}} {
+		fd := findFunc(fn.file, fn.fun)
+		if fd == nil {
+			die("%s not found", fn.fun)
+		}
+		var calls []string
+		ast.Inspect(fd.Body, func(n ast.Node) bool {
+			if c, ok := n.(*ast.CallExpr); ok {
+				if name := src(c.Fun); strings.HasPrefix(name, "strings.") || strings.HasPrefix(name, "bufio.") {
+					calls = append(calls, "call:"+src(c))
+				}
+			}
+			return true
+		})
+		b.WriteString("def " + fn.name + "Decisions : List String := " + leanStrList(decisions(fd.Body)) + "\n")
+		b.WriteString("def " + fn.name + "Calls : List String := " + leanStrList(calls) + "\n")
+	}
 	b.WriteString("def getFilesCallback : List String := " + leanStrList(getFilesCallback(construct)) + "\n")
 	b.WriteString("def docAccessors : List (String × String × String) := [")
 	for i, a := range docAccessors(parseFile(filepath.Join(sp, "model", "javadoc.go"))) {
